@@ -90,7 +90,7 @@ func deadlineStreams(c *gen.Ctx, meta *gen.Meta) int {
 					req, _ := http.NewRequest("POST", ts.URL, bytes.NewReader([]byte(`{"query":"{ a }"}`)))
 					req.Header.Set("Content-Type", "application/json")
 					req.Header.Set("Accept", map[string]string{"sse": "text/event-stream", "multipart": "multipart/mixed"}[kind])
-					resp, err := (&http.Client{Timeout: 5 * time.Second}).Do(req)
+					resp, err := (&http.Client{Timeout: 15 * time.Second}).Do(req)
 					var body []byte
 					ct := ""
 					if err == nil {
